@@ -286,3 +286,159 @@ c.wire = lambda bound, ghosts: bound.__setitem__("d", {"Limits": [bound["lo"], b
 c.req("limits-ordered", lambda lo, hi: le(lo, hi))
 c.ens("pruned-iff-key-outside-the-closed-interval", lambda key, lo, hi, __exit__, **kw: True)
 c.ensures[-1] = ("pruned-iff-key-outside-the-closed-interval", lambda key, lo, hi, __exit__: Iff(__exit__ == "return", Or(lt(key, lo), lt(hi, key))))
+
+
+# -- get_dest: the name tree first (PDF 1.2+), the catalog's /Dests dictionary only when the name tree has no answer (ISO 32000-1 12.3.2.3) ---------------
+class _Catalog(T.Sort):
+    SHAPES = ["no-dests", "dests-empty", "dests-has-name", "dests-has-other"]
+    def fresh(self, ctx, name):
+        k = ctx.choose(self.SHAPES, "catalog")
+        cat = {"Type": "Catalog"}
+        if k == "dests-empty":
+            cat["Dests"] = {}
+        elif k == "dests-has-name":
+            cat["Dests"] = {"chapter1": "old-style-dest"}
+        elif k == "dests-has-other":
+            cat["Dests"] = {"other": "other-dest"}
+        return SObj(pd.PDFDocument, {"catalog": cat, "_shape": k}, name)
+    def sample(self, rng):
+        return None
+    def from_model(self, ev, v):
+        return v.f["_shape"]
+
+
+_ln = stub("pdfminer.pdfdocument:PDFDocument.lookup_name", ["self", "cat", "key"], T.Const("dest-from-name-tree"))
+_ln.may_raise(pd.PDFKeyError, None)
+c = contract("pdfminer.pdfdocument:PDFDocument.get_dest", props=["C17"])
+c.param("self", _Catalog()).param("name", T.Const("chapter1"))
+c.skip_cross = True
+c.stubs = {"pdfminer.pdfdocument:PDFDocument.lookup_name": _ln}
+c.returns(T.Opaque("dest"))
+c.may_raise(pd.PDFDestinationNotFound, lambda self, trace: (len(trace) == 1 and "__result__" not in trace[0][1] and self._shape != "dests-has-name"))
+c.ens("name-tree-answer-wins-else-the-old-style-dictionary", lambda self, name, result, trace: (
+    len(trace) == 1 and trace[0][1]["cat"] == "Dests" and trace[0][1]["key"] == name
+    and (result == "dest-from-name-tree" if "__result__" in trace[0][1] else (self._shape == "dests-has-name" and result == "old-style-dest"))))
+
+
+# -- NumberTree._parse: the entries of the leaves in tree order (own /Nums before /Kids), keys through int_value -------------------------------------------
+class _NumTree(T.Sort):
+    """number trees of depth <= 3 with symbolic integer keys; values are tags; a node may carry /Nums, /Kids, both or neither"""
+    SHAPES = {
+        "leaf-0": lambda k: {"Nums": []},
+        "leaf-1": lambda k: {"Nums": [k[0], "v0"]},
+        "leaf-3": lambda k: {"Nums": [k[0], "v0", k[1], "v1", k[2], "v2"], "Limits": [k[0], k[2]]},
+        "leaf-odd-tail": lambda k: {"Nums": [k[0], "v0", k[1]]},
+        "kids-2": lambda k: {"Kids": [{"Nums": [k[0], "v0", k[1], "v1"]}, {"Nums": [k[2], "v2"]}]},
+        "kids-deep": lambda k: {"Kids": [{"Kids": [{"Nums": [k[0], "v0"]}, {"Nums": [k[1], "v1"]}], "Limits": [k[0], k[1]]}, {"Nums": [k[2], "v2", k[3], "v3"]}]},
+        "nums-and-kids": lambda k: {"Nums": [k[0], "v0"], "Kids": [{"Nums": [k[1], "v1"]}]},
+        "empty-node": lambda k: {},
+        "empty-kid": lambda k: {"Kids": [{}, {"Nums": [k[0], "v0"]}, {"Kids": []}]},
+    }
+    EXPECT = {"leaf-0": [], "leaf-1": [0], "leaf-3": [0, 1, 2], "leaf-odd-tail": [0], "kids-2": [0, 1, 2], "kids-deep": [0, 1, 2, 3], "nums-and-kids": [0, 1], "empty-node": [],
+              "empty-kid": [0]}
+    def fresh(self, ctx, name):
+        shape = ctx.choose(sorted(self.SHAPES), "tree-shape")
+        ks = [ctx.fresh_int("key%d" % i) for i in range(4)]
+        return SObj(None, {"obj": self.SHAPES[shape](ks), "_shape": shape, "_keys": ks}, name)
+    def sample(self, rng):
+        return None
+    def from_model(self, ev, v):
+        return {"shape": v.f["_shape"], "keys": [int(str(ev(k))) for k in v.f["_keys"]]}
+
+
+sc = scenario("pdfminer.data_structures", "number-tree-flattening", """
+def flatten(tree):
+    return NumberTree(tree.obj)._parse()
+""", props=["C17"])
+sc.param("tree", _NumTree())
+sc.skip_cross = True
+sc.returns(T.Opaque("items"))
+sc.ens("entries-of-the-leaves-in-tree-order", lambda tree, result: (
+    len(result) == len(_NumTree.EXPECT[tree._shape])
+    and And(*[And(eq(result[j][0], tree._keys[i]), result[j][1] == "v%d" % i) for j, i in enumerate(_NumTree.EXPECT[tree._shape])])))
+
+
+# -- NumberTree.values (lenient mode): the flattened entries, stably sorted by key ------------------------------------------------------------------------
+_np = stub("pdfminer.data_structures:NumberTree._parse", ["self"])
+c = contract("pdfminer.data_structures:NumberTree.values", props=["C17"])
+c.param("self", T.Obj("pdfminer.data_structures:NumberTree")).ghost("k0", T.Int()).ghost("k1", T.Int()).ghost("k2", T.Int())
+c.skip_cross = True
+_np.result_fn = ("entries", lambda self: [(self.f["_k"][0], "v0"), (self.f["_k"][1], "v1"), (self.f["_k"][2], "v2")])
+c.wire = lambda bound, ghosts: bound["self"].f.__setitem__("_k", [ghosts["k0"], ghosts["k1"], ghosts["k2"]])
+c.stubs = {"pdfminer.data_structures:NumberTree._parse": _np}
+c.returns(T.Opaque("values"))
+
+
+def _sorted_stable(result, k0, k1, k2):
+    ks = {"v0": k0, "v1": k1, "v2": k2}
+    if sorted(x[1] for x in result) != ["v0", "v1", "v2"]:
+        return False
+    conds = []
+    for a, b in zip(result, result[1:]):
+        conds.append(le(a[0], b[0]))
+        if a[1] > b[1]:                     # a later entry moved in front of an earlier one: only when its key is strictly smaller
+            conds.append(lt(ks[a[1]], ks[b[1]]))
+    return And(*[eq(x[0], ks[x[1]]) for x in result], *conds)
+
+
+c.ens("a-permutation-of-the-entries-ascending-by-key-ties-in-tree-order", lambda result, k0, k1, k2: _sorted_stable(result, k0, k1, k2))
+
+
+# -- outlines: items in document order, children right after their parent, one level deeper ---------------------------------------------------------------
+class _Outline(T.Sort):
+    """outline hierarchies of up to five items: the shape (which of /Title /First+/Last /Next /Dest /A are present) is chosen, the values are tags"""
+    def fresh(self, ctx, name):
+        shape = ctx.choose(["empty", "one", "two-siblings", "parent-child-sibling", "grandchild", "untitled-parent", "first-without-last", "headings-only"], "outline-shape")
+        T_ = lambda t, **kw: dict({"Title": t}, **kw)
+        if shape == "empty":
+            root, want = {}, []
+        elif shape == "one":
+            a = T_(b"A", Dest="dA")
+            root, want = {"First": a, "Last": a}, [(1, "A", "dA", None, None)]
+        elif shape == "two-siblings":
+            b = T_(b"B", A="aB")
+            a = T_(b"A", Dest="dA", Next=b)
+            root, want = {"First": a, "Last": b}, [(1, "A", "dA", None, None), (1, "B", None, "aB", None)]
+        elif shape == "parent-child-sibling":
+            a1 = T_(b"A1", Dest="dA1", SE="seA1")
+            b = T_(b"B", Dest="dB")
+            a = T_(b"A", Dest="dA", First=a1, Last=a1, Next=b)
+            root, want = {"First": a, "Last": b}, [(1, "A", "dA", None, None), (2, "A1", "dA1", None, "seA1"), (1, "B", "dB", None, None)]
+        elif shape == "grandchild":
+            a11 = T_(b"A11")
+            a12 = T_(b"A12")
+            a11["Next"] = a12
+            a1 = T_(b"A1", First=a11, Last=a12)
+            a2 = T_(b"A2")
+            a1["Next"] = a2
+            a = T_(b"A", First=a1, Last=a2)
+            root, want = {"First": a, "Last": a}, [(1, "A", None, None, None), (2, "A1", None, None, None), (3, "A11", None, None, None), (3, "A12", None, None, None),
+                                                    (2, "A2", None, None, None)]
+        elif shape == "untitled-parent":
+            a1 = T_(b"A1", Dest="dA1")
+            a = {"First": a1, "Last": a1}
+            root, want = {"First": a, "Last": a}, [(2, "A1", "dA1", None, None)]
+        elif shape == "first-without-last":
+            a1 = T_(b"A1")
+            a = T_(b"A", First=a1)
+            root, want = {"First": a, "Last": a}, [(1, "A", None, None, None)]
+        else:
+            b = T_(b"B")
+            a = T_(b"A", Next=b)
+            root, want = {"First": a, "Last": b}, [(1, "A", None, None, None), (1, "B", None, None, None)]
+        return SObj(None, {"catalog": {"Outlines": root}, "_shape": shape, "_want": want}, name)
+    def sample(self, rng):
+        return None
+    def from_model(self, ev, v):
+        return v.f["_shape"]
+
+
+sc = scenario("pdfminer.pdfdocument", "outline-items-in-document-order-with-levels", """
+def outline(doc):
+    return list(PDFDocument.get_outlines(doc))
+""", props=["C17"])
+sc.param("doc", _Outline())
+sc.inline_callees = True
+sc.skip_cross = True
+sc.returns(T.Opaque("items"))
+sc.ens("preorder-with-nesting-levels-and-optional-entries", lambda doc, result: [tuple(x) for x in result] == doc._want)
